@@ -46,6 +46,9 @@ def cases(tier, seed):
                 out.append(dict(gen='hist', subject=name, precision=prec, regime=regime, sub=core.subseed('C01g', seed, k), must=True,
                                 placements='subsets' if name in CHEAP else 'allgaps', prefix=True))
                 k += 1
+    # batches of more than a megabyte of samples (hundreds of samples x thousands of traces) against the same traces in short batches
+    for j, name in enumerate(('anova', 'snr', 'nicv', 'cpa', 'dpa', 'mia', 'ttacc') if tier == 'quick' else ('anova', 'snr', 'nicv', 'cpa', 'dpa', 'mia', 'ttacc', 'cpa_alt', 'anova', 'snr', 'tbuild')):
+        out.append(dict(gen='hist', subject=name, precision='float64', regime='E', bigframe=True, sub=core.subseed('C01bf', seed, j), must=True, placements='allgaps', prefix=False))
     n_rand = 220 if tier == 'quick' else 9000
     weights = np.array([4 if s in CHEAP else 1 for s in subjects.SUBJECTS], dtype=float)
     weights /= weights.sum()
@@ -72,6 +75,10 @@ def _workload(case, rng):
     ws = gen.WORD_SHAPES[int(rng.integers(len(gen.WORD_SHAPES)))]
     spec = dict(name=name, precision=prec)
     tdtype = gen.TRACE_DTYPES[int(rng.integers(len(gen.TRACE_DTYPES)))]
+    if case.get('bigframe'):
+        n, T = int(rng.choice([1200, 2500])), (int(rng.choice([150, 300])) if name != 'tbuild' else 12)
+        ws = [(), (2,)][int(rng.integers(2))]
+        tdtype = ['float64', 'int32', 'int64', 'float32'][int(rng.integers(4))]
     data = None
     ymax = 1
     if name in ('cpa', 'cpa_alt'):
@@ -171,7 +178,7 @@ def _run_history(t, spec, traces, data, sizes, compute_gaps, kernels=None):
         if g in compute_gaps:
             inter[g] = subjects.results(obj, spec)
             t.count('inserted_computes')
-    first = subjects.results(obj, spec)
+    first = subjects.results(obj, spec, raw=True)          # the very arrays handed to the caller
     final = [(la, np.array(a, copy=True)) for la, a in first]
     for la, a in first:
         # what the caller does with a returned array (here: overwriting it) is no business of the next compute()
@@ -208,6 +215,10 @@ def run_case(case):
     spec, traces, data, n, T, ws, tdtype = _workload(case, rng)
     name, prec, regime = case['subject'], case['precision'], case['regime']
     sizes = gen.split_sizes(rng, n)
+    if case.get('bigframe'):
+        q = n // int(rng.choice([4, 5, 8]))
+        sizes = [q] * (n // q) + ([n % q] if n % q else [])
+        t.count('megabyte_batch_cases')
     nb = len(sizes)
     info = dict(subject=name, precision=prec, regime=regime, n=n, T=T, ws=list(ws), tdtype=tdtype, sizes=sizes)
     kern = name in ('anova', 'nicv', 'snr', 'tbuild')
